@@ -235,6 +235,10 @@ def gen_case(rng, uid0, real=None):
         if kind == "crash":
             ss["crash_after"] = rng.randint(1, 3)
         if kind in ("grid", "gridcrash"):
+            # whole-number likelihoods in most grids: cells tie, and the best cell is often exactly 0.0
+            run["analysis"]["trunc"] = rng.random() < 0.7
+            if run["analysis"]["trunc"]:
+                run["analysis"]["scale"] = rng.choice([1.0, 4.0, 50.0, 400.0])  # (some cells reach 0, others do not)
             run["steps"] = rng.choice([2, 2, 3])
             run["dims"] = rng.choice([1, 1, 2])
             if run["dims"] == 2:
@@ -418,9 +422,11 @@ def apply_storage(case, records, root: Path):
         if rec["ok"] and rec["run"]["k"] not in ("grid", "gridcrash"):
             src = Path(rec["output_path"])
             dst = root / cp["to"] / src.name
+            # a copy of the fit as it is stored: its folder and / or its archive (copying only the stale folder of
+            # a "stale" store would make another, unfinished fit of it)
             if src.exists():
                 shutil.copytree(src, dst)
-            elif Path(str(src) + ".zip").exists():
+            if Path(str(src) + ".zip").exists():
                 dst.parent.mkdir(parents=True, exist_ok=True)
                 shutil.copy(str(src) + ".zip", str(dst) + ".zip")
 
@@ -434,7 +440,7 @@ def store_one(folder: Path, how):
     z = Path(str(folder) + ".zip")
     if not z.exists() or not folder.exists():
         return
-    if zlib_crc(folder.name) % 4 == 0:
+    if zlib_crc(folder.name) % 4 == 0 and not os.environ.get("C11_NO_TMP"):
         # what a process killed while compressing this folder once left behind: a truncated temporary archive.
         # It is not an archive of a fit; loading ignores it.
         data = z.read_bytes()
